@@ -1,4 +1,76 @@
-"""C03 - refinement of the T container against its reference model (Engine H)."""
+"""C03 - TemporalHypergraph: refinement + windows, snapshots, aggregate (Engine H)."""
+from .. import hist
+from .. import observe as O
+from ..core import Violation, short, tag
+from ..models import Model
 from ._refine import make
 
-globals().update(make("C03", "T"))
+
+def propose(g, model, name):
+    r = g.rng
+    if name == "d_aggregate":
+        return {"op": name, "w": r.randint(1, 8)}
+    if name == "d_snapshots":
+        if r.random() < 0.25:
+            return {"op": name, "window": None}
+        a = r.randint(0, 7)
+        return {"op": name, "window": [a, r.randint(a, 8)]}
+    return None
+
+
+def h_aggregate(w, a, op):
+    obj, model = w.actors[a]
+    width = op["w"]
+    try:
+        res = obj.aggregate(width)
+    except Exception as e:  # noqa
+        raise Violation("C03/derive/aggregate/raised", {"op": op, "exception": repr(e)})
+    if not model.edges:
+        return "no-edges"  # "[0, max time]" undefined without a hyperedge: not asserted
+    maxt = max(k[0] for k in model.edges)
+    nwin = maxt // width + 1
+    if not isinstance(res, dict) or sorted(res.keys()) != list(range(nwin)):
+        raise Violation("C03/derive/aggregate/windows", {
+            "op": op, "library_keys": short(sorted(res.keys()) if isinstance(res, dict) else res),
+            "expected_keys": list(range(nwin)), "max_time": maxt})
+    for k in range(nwin):
+        exp = Model("H", model.weighted)
+        for n, md in model.nodes.items():
+            exp.nodes[n] = {}
+        for (t, ns), (wt, md) in sorted(model.edges.items(), key=lambda kv: (kv[0][0], sorted(tag(x) for x in kv[0][1]))):
+            if k * width <= t < (k + 1) * width:
+                if ns in exp.edges:
+                    if model.weighted:
+                        exp.edges[ns][0] = exp.edges[ns][0] + wt
+                    w.probe("aggregate_repeat_in_window")
+                else:
+                    exp.edges[ns] = [wt if model.weighted else 1, {}]
+        hist.compare_derived("C03", "aggregate", "H", res[k], exp, w.U, ctx={"width": width, "window": k})
+    w.probe("aggregate_windows", nwin)
+    return nwin
+
+
+def h_snapshots(w, a, op):
+    obj, model = w.actors[a]
+    win = op["window"]
+    try:
+        res = obj.subhypergraph(tuple(win)) if win is not None else obj.subhypergraph()
+    except Exception as e:  # noqa
+        raise Violation("C03/derive/snapshots/raised", {"op": op, "exception": repr(e)})
+    lo, hi = (win if win is not None else (-1, 10**9))
+    times = sorted({t for (t, ns) in model.edges if lo <= t < hi})
+    if not isinstance(res, dict) or sorted(res.keys()) != times:
+        raise Violation("C03/derive/snapshots/times", {
+            "op": op, "library_keys": short(sorted(res.keys()) if isinstance(res, dict) else res), "expected": times})
+    for t in times:
+        exp = Model("H", model.weighted)
+        for (tt, ns), (wt, md) in model.edges.items():
+            if tt == t:
+                exp.edges[ns] = [wt, {}]
+        hist.compare_derived("C03", "snapshots", "H", res[t], exp, w.U, ignore_nodes=True, ctx={"window": win, "time": t})
+    w.probe("snapshot_times", len(times))
+    return len(times)
+
+
+globals().update(make("C03", "T", extra_ops=("d_aggregate", "d_snapshots"), extra_propose=propose,
+                      handlers={"d_aggregate": h_aggregate, "d_snapshots": h_snapshots}))
